@@ -351,8 +351,8 @@ SELECTIONS = ["getitem", "getitem", "getitem>loc", "loc>getitem", "getitem>iloc"
               "loc>loccols", "loccols>loc", "iloc>iloccols", "iloccols>iloc", "loccols>iloc", "iloccols>loc"]
 
 
-def make_case(rng, kind, max_m=11):
-    spec = M.random_spec(rng, KERNEL_NAMES)
+def make_case(rng, kind, max_m=11, force=None):
+    spec = {"name": "MultiMOORA"} if force == "MultiMOORA-ties" else M.random_spec(rng, KERNEL_NAMES)
     name = spec["name"]
     if kind == "kernel":
         kw = dict(max_m=max_m, max_n=6, min_n=2, ties=rng.choice([0.0, 0.2, 0.5]), dups=rng.choice([0.0, 0.15, 0.3]))
@@ -361,7 +361,17 @@ def make_case(rng, kind, max_m=11):
             kw["positive"] = rng.random() < 0.6
         dm = M.in_domain_dm(rng, spec, **kw)
         steps = []
-        if dm["family"] == "dyadic" and rng.random() < 0.12:
+        if name == "MultiMOORA" and (force == "MultiMOORA-ties" or rng.random() < 0.6):
+            # few distinct values and few distinct weights: alternatives then TIE in one of the three component rankings while the
+            # other two disagree, which is where the pairwise dominance count depends on how a tie is read
+            vals = rng.choice([[1.0, 2.0, 3.0], [1.0, 2.0], [1.0, 2.0, 4.0, 8.0]])
+            dm["matrix"] = [[rng.choice(vals) for _ in row] for row in dm["matrix"]]
+            if all(r == dm["matrix"][0] for r in dm["matrix"]):
+                dm["matrix"][-1] = [v + 1 for v in dm["matrix"][-1]]
+            wv = rng.choice([[1.0], [0.5, 1.0], [0.25, 0.5, 1.0]])
+            dm["weights"] = [rng.choice(wv) for _ in dm["weights"]]
+            dm["family"], dm["int_matrix"] = "dyadic", rng.random() < 0.5
+        elif dm["family"] == "dyadic" and rng.random() < 0.12:
             # large common level, small spread (figures around 2^27 differing by units): exact in binary64 when differences are
             # taken first; a kernel that expands squares or sums before subtracting depends on the listing order here
             off = float(2 ** 27)
@@ -404,7 +414,7 @@ def make_case(rng, kind, max_m=11):
         m += 1
     if name in ("ELECTRE1", "ELECTRE2") and kind == "kernel":
         _norm_weights(dm)
-    mode = rng.choice(["all", "all", "all", "rows", "cols", "names"])
+    mode = rng.choice(["all", "all", "all", "rows", "cols", "names"]) if force is None else rng.choice(["all", "rows"])
     ckind, c = _multiplier(rng)
     # how the second presentation comes into being: rebuilt from scratch, or selected out of the first DecisionMatrix
     via = rng.choice(SELECTIONS) if rng.random() < 1 / 3 else "mkdm"
@@ -425,6 +435,9 @@ def gen(ctx):
         cases.append(make_case(rng, "kernel"))
     for _ in range(ctx.n(170, 3400)):
         cases.append(make_case(rng, "pipeline"))
+    # a fixed share of every run: MultiMOORA where component rankings tie, alternatives re-listed
+    for _ in range(ctx.n(40, 400)):
+        cases.append(make_case(rng, "kernel", max_m=7, force="MultiMOORA-ties"))
     return cases
 
 
